@@ -2,7 +2,9 @@
 package c20
 
 import (
+	"bytes"
 	"context"
+	"crypto/sha256"
 	"encoding/binary"
 	"errors"
 	"fmt"
@@ -22,6 +24,30 @@ type daD struct {
 	// fetch log of the call in progress: heights whose content was served
 	served []uint64
 	asked  []uint64
+	// contentIDs (`reset … ids=content`): ids are height ‖ sha256(blob), exactly what core/da.DummyDA hands out
+	// (core/da/dummy.go:202-207, makeID in core/da/da.go:117): byte-identical blobs of one height share an id.
+	contentIDs bool
+}
+
+func cID(h uint64, blob []byte) []byte {
+	sum := sha256.Sum256(blob)
+	id := make([]byte, 8, 40)
+	binary.LittleEndian.PutUint64(id, h)
+	return append(id, sum[:]...)
+}
+
+// positions of the blobs of height h whose content id is id (several when the height holds identical blobs)
+func (d *daD) positionsOf(id []byte) (h uint64, pos []int) {
+	if len(id) != 40 {
+		return 0, nil
+	}
+	h = binary.LittleEndian.Uint64(id)
+	for i, b := range d.blobs[h] {
+		if bytes.Equal(cID(h, b), id) {
+			pos = append(pos, i)
+		}
+	}
+	return h, pos
 }
 
 func newDA() *daD {
@@ -57,13 +83,33 @@ func (d *daD) GetIDs(_ context.Context, h uint64, _ []byte) (*coreda.GetIDsResul
 	}
 	ids := make([]coreda.ID, n)
 	for i := range ids {
-		ids[i] = mkID(h, i)
+		if d.contentIDs {
+			ids[i] = cID(h, d.blobs[h][i])
+		} else {
+			ids[i] = mkID(h, i)
+		}
 	}
 	return &coreda.GetIDsResult{IDs: ids, Timestamp: time.Unix(int64(1000+h), 0)}, nil
 }
 
 func (d *daD) Get(_ context.Context, ids []coreda.ID, _ []byte) ([]coreda.Blob, error) {
 	out := make([]coreda.Blob, 0, len(ids))
+	if d.contentIDs {
+		for k, id := range ids {
+			h, pos := d.positionsOf(id)
+			if len(pos) == 0 {
+				return nil, coreda.ErrBlobNotFound
+			}
+			if k == 0 && d.errGet[h] {
+				return nil, errors.New("rpc failure while fetching")
+			}
+			if k == 0 {
+				d.served = append(d.served, h)
+			}
+			out = append(out, append([]byte(nil), d.blobs[h][pos[0]]...))
+		}
+		return out, nil
+	}
 	for k, id := range ids {
 		h, i, ok := splitID(id)
 		if !ok || i < 0 || i >= len(d.blobs[h]) {
